@@ -9,26 +9,31 @@ open Hc.PairSetup
 /-- the only message that can cause a save after history `hist` on connection `c`: sealed under the key derived
     from the SRP session key of the proof accepted in this exchange, untampered, right nonce, carrying exactly
     `name`, `key` and a signature by `key` over (HKDF(S) ‖ name ‖ key) -/
-def keyExchangeFor (c a name key : Nat) : In :=
-  .m5 (.sealed (.ofS (.srp c a)) true true (.tlv name (.pk key) (.valid key (.srp c a) name key)))
+def keyExchangeFor (c e a name key : Nat) : In :=
+  .m5 (.sealed (.ofS (.srp c e a)) true true (.tlv name (.pk key) (.valid key (.srp c e a) name key)))
+
+/-- the number of the SRP session that is current after `hist` (a new one for every start request accepted after the first) -/
+def epochAfter (c : Nat) (hist : List In) : Nat := (stAfter true c init hist).epoch
 
 /-- Every history on a connection, every next message: if that message makes the accessory store
     `(name, key)`, then earlier in the same exchange (only state-neutral rejected messages in between) the
-    controller proved knowledge of the setup code (`m3` with the proof for this connection's challenge and the
-    right code), and the message is exactly the authenticated, signed key exchange for that name and key. -/
+    controller proved knowledge of the setup code (`m3` with the proof for the challenge of THIS exchange's SRP session
+    — `ProvedNow` pins the proof's session to the one current when it was sent, so a proof recorded in an earlier
+    exchange on the same connection does not count — and the right code), and the message is exactly the
+    authenticated, signed key exchange for that name and key under that session's secret. -/
 theorem save_requires_proof (c : Nat) (hist : List In) (i : In) (name key : Nat)
     (hs : (step true c (stAfter true c init hist) i).2.2 = some (name, key)) :
-    ∃ a, ProvedNow c hist a ∧ i = keyExchangeFor c a name key := by
+    ∃ a, ProvedNow c hist a ∧ i = keyExchangeFor c (epochAfter c hist) a name key := by
   obtain ⟨hstep, hi⟩ := (step_save_iff c _ i name key).mp hs
   have hinv := inv_after c [] hist init (inv_init c)
-  obtain ⟨a, hp, hS, hK⟩ := hinv hstep
+  obtain ⟨a, hp, hS, hK⟩ := hinv.2 hstep
   refine ⟨a, by simpa using hp, ?_⟩
   rw [hi, hS, hK]; rfl
 
 /-- …and every other message (wrong code, reordered, repeated, truncated, malformed, forged, sealed under a key
     that does not come from a completed proof, unknown state or method) leaves the store as it was. -/
 theorem otherwise_store_unchanged (c : Nat) (hist : List In) (i : In)
-    (h : ¬ ∃ a name key, ProvedNow c hist a ∧ i = keyExchangeFor c a name key) :
+    (h : ¬ ∃ a name key, ProvedNow c hist a ∧ i = keyExchangeFor c (epochAfter c hist) a name key) :
     (step true c (stAfter true c init hist) i).2.2 = none := by
   cases hs : (step true c (stAfter true c init hist) i).2.2 with
   | none => rfl
@@ -40,9 +45,9 @@ theorem otherwise_store_unchanged (c : Nat) (hist : List In) (i : In)
 /-- completeness (the honest exchange does store): after `m1`, an accepted proof and the matching key exchange,
     the pair is saved — so the two theorems above are not vacuous. -/
 theorem honest_exchange_saves (c a name key : Nat) :
-    (step true c (stAfter true c init [.m1, .m3 (.good a) (.validFor c a true)]) (keyExchangeFor c a name key)).2.2
+    (step true c (stAfter true c init [.m1, .m3 (.good a) (.validFor c 0 a true)]) (keyExchangeFor c 0 a name key)).2.2
       = some (name, key) := by
-  simp [stAfter, step, init, keyExchangeFor, openSealed, sigOk]
+  simp [stAfter, step, stepR, init, keyExchangeFor, openSealed, sigOk, proofOk]
 
 /-- the observations of `run` are those one-step observations (ties the statements above to whole runs) -/
 theorem run_last_observation (c : Nat) (hist : List In) (i : In) :
@@ -56,7 +61,7 @@ theorem run_last_observation (c : Nat) (hist : List In) (i : In) :
 theorem store_changes_only_by_proved_exchange (h : List (Nat × In)) (c : Nat) (i : In) :
     let g := (grun true Global.init h).1
     (gstep true g (c, i)).1.store = g.store ∨
-    ∃ a name key, ProvedNow c (proj c h) a ∧ i = keyExchangeFor c a name key ∧
+    ∃ a name key, ProvedNow c (proj c h) a ∧ i = keyExchangeFor c (epochAfter c (proj c h)) a name key ∧
       (gstep true g (c, i)).1.store = (name, key) :: g.store := by
   intro g
   have hc : g.conns c = stAfter true c init (proj c h) := by
@@ -80,6 +85,59 @@ theorem two_connections_independent (h : List (Nat × In)) (c : Nat) (i : In) :
   simp only [Global.init] at hc
   simp [gstep, hc, Global.init]
 
+-- every exchange has its own SRP session ------------------------------------------------------------------------------
+
+/-- A start request that is accepted after an earlier one had been draws a new SRP session … -/
+theorem new_exchange_new_session (c : Nat) (st : St) (hw : st.step = .waiting) (hs : st.started = true) :
+    (step true c st .m1).1.epoch = st.epoch + 1 ∧ (step true c st .m1).1.step = .startResp := by
+  simp [step, stepR, hw, hs]
+
+/-- … the number of the session in use never goes down … -/
+theorem session_number_monotone (c : Nat) (st : St) (hist : List In) : st.epoch ≤ (stAfter true c st hist).epoch := by
+  induction hist generalizing st with
+  | nil => simp [stAfter]
+  | cons i is ih =>
+    have h1 := ih (step true c st i).1
+    have h2 := epoch_step c st i
+    simp only [stAfter, List.foldl_cons] at h1 ⊢
+    rcases h2 with h | ⟨_, _, _, h⟩ <;> omega
+
+/-- … and a proof made for another session of the connection (recorded in an earlier exchange and sent again, by
+    whoever) is never accepted, whatever the state: the answer is the authentication error or HTTP 500, the controller
+    is not at `verifyResp` afterwards, nothing is stored. -/
+theorem replayed_proof_refused (c : Nat) (st : St) (A : ARef) (e a : Nat) (ok : Bool) (he : e ≠ st.epoch) :
+    let r := step true c st (.m3 A (.validFor c e a ok))
+    (r.2.1 = .http500 ∨ r.2.1 = .tlv 4 (some 2) false false false) ∧ r.1.step = .waiting ∧ r.2.2 = none := by
+  simp only [step, stepR]
+  split
+  · simp [reset]
+  · cases A with
+    | bad n => simp [reset]
+    | good a' =>
+      have : proofOk true c st a' (.validFor c e a ok) = false := by
+        simp only [proofOk, Bool.not_true, Bool.false_or]
+        have : (e == st.epoch) = false := by simpa using he
+        simp [this]
+      simp [this]
+
+/-- With ONE SRP session per connection (the code before the repair of F43) the messages of a completed exchange are
+    valid again after a new start request on the same connection: nobody proves the setup code in the second exchange,
+    yet the pairing is stored a second time (in between it may have been removed). With a session per exchange the same
+    seven messages store once. -/
+def replayHistory : List In :=
+  [.m1, .m3 (.good 5) (.validFor 0 0 5 true), keyExchangeFor 0 0 5 7 9,
+   .m1,        -- in the wrong step: rejected, the controller goes back to waiting
+   .m1, .m3 (.good 5) (.validFor 0 0 5 true), keyExchangeFor 0 0 5 7 9]
+
+def runR (renew : Bool) (c : Nat) : St → List In → List Save
+  | _, [] => []
+  | st, i :: is => (stepR true renew c st i).2.2 :: runR renew c (stepR true renew c st i).1 is
+
+theorem one_session_per_connection_refuted :
+    runR false 0 init replayHistory = [none, none, some (7, 9), none, none, none, some (7, 9)] ∧
+    runR true 0 init replayHistory = [none, none, some (7, 9), none, none, none, none] := by
+  decide
+
 -- the behaviour before the repair is refuted ---------------------------------------------------------
 
 /-- three messages, no proof anywhere: `m1`, `m3` with `A ≡ 0 (mod N)`, key exchange sealed under the all-zero key
@@ -89,13 +147,16 @@ def attack : List In :=
 
 theorem unfixed_refuted :
     ((run false 0 init attack).2.map (·.2)) = [none, none, some (7, 9)] ∧
-    attack.all (fun i => match i with | .m3 _ (.validFor _ _ true) => false | _ => true) = true := by
+    attack.all (fun i => match i with | .m3 _ (.validFor _ _ _ true) => false | _ => true) = true := by
   decide
 
 theorem fixed_blocks_attack : ((run true 0 init attack).2.map (·.2)) = [none, none, none] := by decide
 
 -- non-vacuity of the hypotheses -------------------------------------------------------------------------
-example : ProvedNow 3 [.m1, .m3 (.good 5) (.validFor 3 5 true), .badMethod] 5 :=
-  ⟨[.m1], [.badMethod], rfl, by simp [In.noop]⟩
+example : ProvedNow 3 [.m1, .m3 (.good 5) (.validFor 3 0 5 true), .badMethod] 5 :=
+  ⟨[.m1], [.badMethod], by simp [stAfter, step, stepR, init], by simp [In.noop]⟩
+/-- a second exchange on the same connection: its proof is one for session 1 -/
+example : ProvedNow 3 [.m1, .m1, .m1, .m3 (.good 5) (.validFor 3 1 5 true)] 5 :=
+  ⟨[.m1, .m1, .m1], [], by simp [stAfter, step, stepR, init, reset], by simp⟩
 
 end Hc.Props.C02
